@@ -48,8 +48,65 @@ pub struct Clause {
 fn clause(kind: impl Into<String>, detail: impl Into<String>) -> Clause {
     Clause {
         kind: kind.into(),
-        detail: detail.into(),
+        detail: compact(&detail.into()),
     }
+}
+
+/// `ExtField { value: [a, b, c, d], _phantom: PhantomData<...> }` -> `[a, b, c, d]`
+/// (the `Debug` form of p3 extension elements is unreadable in reports).
+pub fn compact(s: &str) -> String {
+    let mut out = String::with_capacity(s.len());
+    let mut rest = s;
+    const OPEN: &str = " { value: [";
+    while let Some(i) = rest.find(OPEN) {
+        // drop the type name in front of " { value: ["
+        let head = &rest[..i];
+        let cut = head
+            .rfind(|c: char| !(c.is_alphanumeric() || c == '_'))
+            .map(|k| k + 1)
+            .unwrap_or(0);
+        out.push_str(&head[..cut]);
+        let after = &rest[i + OPEN.len()..];
+        let Some(j) = after.find(']') else {
+            out.push_str(&rest[cut..]);
+            return out;
+        };
+        out.push('[');
+        out.push_str(&after[..j]);
+        out.push(']');
+        // skip ", _phantom: PhantomData<...> }" with balanced angle brackets
+        let tail = &after[j + 1..];
+        let mut depth = 0i32;
+        let mut end = None;
+        for (k, c) in tail.char_indices() {
+            match c {
+                '<' => depth += 1,
+                '>' => {
+                    depth -= 1;
+                    if depth == 0 {
+                        end = Some(k + 1);
+                        break;
+                    }
+                }
+                '}' if depth == 0 => {
+                    end = Some(k);
+                    break;
+                }
+                _ => {}
+            }
+        }
+        match end {
+            Some(e) => {
+                let t = &tail[e..];
+                rest = t.strip_prefix(" }").unwrap_or(t.strip_prefix("}").unwrap_or(t));
+            }
+            None => {
+                rest = "";
+            }
+        }
+    }
+    out.push_str(rest);
+    out
 }
 
 #[derive(Clone, Debug, PartialEq, Eq)]
@@ -300,6 +357,7 @@ pub fn predicate<B: Backend>(
     }
     let mut op_states = BTreeMap::new();
     let mut npo_complete = true;
+    let mut npo_row2: BTreeMap<String, usize> = BTreeMap::new();
 
     let mut ai = 0usize;
     for (oi, op) in circuit.ops.iter().enumerate() {
@@ -427,6 +485,23 @@ pub fn predicate<B: Backend>(
                 executor,
                 op_id,
             } => {
+                // mode of the committed row (part of the clause kind): Merkle rows and sponge
+                // rows of the permutation table are different designs
+                let ty = executor.op_type().as_str().to_string();
+                let row = {
+                    let e = npo_row2.entry(ty.clone()).or_insert(0);
+                    *e += 1;
+                    *e - 1
+                };
+                let mode = if ty.starts_with("poseidon2_perm/") {
+                    match fields::poseidon_rows::<B>(traces).and_then(|p| p.operations.get(row)) {
+                        Some(r) if r.merkle_path => ",merkle",
+                        Some(_) => ",sponge",
+                        None => "",
+                    }
+                } else {
+                    ""
+                };
                 let ready = nin.iter().flatten().all(|s| get(&val, *s).is_some());
                 if !ready || !npo_complete {
                     npo_complete = false;
@@ -455,7 +530,7 @@ pub fn predicate<B: Backend>(
                     // the executor itself refuses these inputs (e.g. a non-boolean direction
                     // bit): no row can be the function of them
                     fail = Some(clause(
-                        format!("npo-rejects({})", crate::backend::key_table(executor.op_type().as_str())),
+                        format!("npo-rejects({}{mode})", crate::backend::key_table(executor.op_type().as_str())),
                         format!("npo op {oi} ({}): executor rejects the assignment: {e:?}", executor.op_type()),
                     ));
                     continue;
@@ -471,7 +546,7 @@ pub fn predicate<B: Backend>(
                                 if x != computed && fail.is_none() {
                                     fail = Some(clause(
                                         format!(
-                                            "npo-output({},{})",
+                                            "npo-output({},{}{mode})",
                                             crate::backend::key_table(executor.op_type().as_str()),
                                             if g < n_exposed { "exposed" } else { "hidden" }
                                         ),
@@ -566,8 +641,18 @@ pub fn predicate<B: Backend>(
                         .map(|t| crate::backend::key_table(t.as_str()))
                         .unwrap_or_default(),
                 };
+                let mode = match l {
+                    Loc::PosIn { row, .. } | Loc::PosIndexSum { row } | Loc::PosFlag { row, .. } => {
+                        match fields::poseidon_rows::<B>(traces).and_then(|p| p.operations.get(*row)) {
+                            Some(r) if r.merkle_path => ",merkle",
+                            Some(_) => ",sponge",
+                            None => "",
+                        }
+                    }
+                    _ => "",
+                };
                 return Pred::Fails(clause(
-                    format!("npo-row({ty}.{what})"),
+                    format!("npo-row({ty}.{what}{mode})"),
                     format!("non-primitive row is not the function of the assignment: {l:?} committed {y:?}, function value {x:?}"),
                 ));
             }
